@@ -1,12 +1,7 @@
-\* random: up to 160 rows, wide schemas
 CONSTANTS
-  R = 160
-  Vals = {0, 1, 2, 3, 4, 5, 6, 7, 8, 10, 12, 16, 24, 32}
-  DVals = {1, 2, 4}
-  SchemaIds = {9, 10, 11, 12}
-  TolIds = {1, 2, 3, 4, 5, 6, 7, 8, 9, 10, 11, 12}
-  ConstIds = {1, 2, 3, 4, 5}
-  N = 40
+  ExhFamilies <- NoFamilies
+  RandFamilies <- RandBig
+  N = 100000
 INIT RandInit
 NEXT RandNext
 INVARIANT Emit
